@@ -149,7 +149,10 @@ Definition fresh_tcell (pr : profile) (rep anergy_thr : Z) : tcell :=
 (* ---------------------------------------------------------------------- *)
 (* regulatory T cell                                                        *)
 
-Record trec := mkRec { rc_clean : Z; rc_total : Z }.
+(* ToleranceRecord: the inspection counters; whether last_update is set (mark_updated was
+   called: recent_update, the tolerance hour never elapses within a history); the
+   tolerated_violations set as sorted violation codes *)
+Record trec := mkRec { rc_clean : Z; rc_total : Z; rc_updated : bool; rc_tolerated : list Z }.
 Record rule := mkRule { ru_max : level; ru_cond : response -> trec -> bool }.
 
 Record supp := mkSupp {
@@ -188,7 +191,18 @@ Definition treg_evaluate (rules : list rule) (stab : Z) (r : response) (rc : tre
   end.
 
 Definition record_inspection (rc : trec) (clean : bool) : trec :=
-  mkRec (if clean then rc_clean rc + 1 else 0) (rc_total rc + 1).
+  mkRec (if clean then rc_clean rc + 1 else 0) (rc_total rc + 1) (rc_updated rc) (rc_tolerated rc).
+
+(* ToleranceRecord.mark_updated / add_tolerated_violation (a set: sorted, no duplicates) *)
+Definition rec_mark_updated (rc : trec) : trec :=
+  mkRec (rc_clean rc) (rc_total rc) true (rc_tolerated rc).
+Fixpoint zinsert (x : Z) (l : list Z) : list Z :=
+  match l with
+  | [] => [x]
+  | y :: r => if x <? y then x :: l else if x =? y then l else y :: zinsert x r
+  end.
+Definition rec_tolerate (rc : trec) (code : Z) : trec :=
+  mkRec (rc_clean rc) (rc_total rc) (rc_updated rc) (zinsert code (rc_tolerated rc)).
 
 (* ---------------------------------------------------------------------- *)
 (* immune memory                                                            *)
@@ -197,14 +211,19 @@ Definition record_inspection (rc : trec) (clean : bool) : trec :=
 Record msig := mkSig {
   m_agent : Z; m_vh : Z; m_sh : Z; m_level : level; m_action : action;
   m_created : Z;       (* created_at *)
-  m_accessed : Z       (* last_accessed *) }.
+  m_accessed : Z;      (* last_accessed *)
+  m_types : list Z     (* violation_types, as violation codes *) }.
 
 Definition sig_matches (p : peptide) (m : msig) : bool :=
   (m_agent m =? 0) && (m_vh m =? p_vh p) && (m_sh m =? p_sh p).
 Definition recall (mem : list msig) (p : peptide) : option msig := find (sig_matches p) mem.
 
 Definition restamp (m : msig) (created accessed : Z) : msig :=
-  mkSig (m_agent m) (m_vh m) (m_sh m) (m_level m) (m_action m) created accessed.
+  mkSig (m_agent m) (m_vh m) (m_sh m) (m_level m) (m_action m) created accessed (m_types m).
+
+(* ThreatSignature.matches(query, partial=True): same agent and a common violation type *)
+Definition sig_matches_partial (agent : Z) (types : list Z) (m : msig) : bool :=
+  (m_agent m =? agent) && existsb (fun x => zmem x types) (m_types m).
 
 (* ThreatSignature.touch on the first signature satisfying f (recall) *)
 Fixpoint touch_first (f : msig -> bool) (now : Z) (mem : list msig) : list msig :=
@@ -318,7 +337,10 @@ Inductive op :=
 | OTouch (agent vh sh : Z)         (* memory.recall(query): touches the first exact match *)
 | OSetClean (k : Z)                (* record.clean_inspections := k *)
 | OTrain (p : option peptide)      (* train_agent on the window whose fingerprint is p *)
-| OTregEval (l : level) (a : action).  (* treg.evaluate on a hand-made response *)
+| OTregEval (l : level) (a : action)   (* treg.evaluate on a hand-made response *)
+| OMarkUpdated                     (* mark_agent_updated(agent) *)
+| OTolerate (code : Z)             (* record.add_tolerated_violation(name of violation code) *)
+| OTouchPartial (agent : Z) (types : list Z).  (* memory.recall(query, partial=True): touches the first partial match *)
 
 Inductive outcome :=
 | OutRaise                                   (* ValueError: agent not trained *)
@@ -356,7 +378,7 @@ Definition sys_inspect (legacy : bool) (g : cfg) (s : sys) (po : option peptide)
           end in
         let mem' := if stores (r_level r')
                     then mem_store (g_cap g) (s_clock s) (s_mem s)
-                                   (mkSig 0 (p_vh p) (p_sh p) (r_level r') (r_action r') 0 0)
+                                   (mkSig 0 (p_vh p) (p_sh p) (r_level r') (r_action r') 0 0 (r_viol r'))
                     else s_mem s in
         (mkSys (Some t') mem' rec' (s_clock s) (s_imp s), OutResp r' sp)
       end
@@ -394,12 +416,17 @@ Definition sys_step (rnd : Q -> Q) (legacy : bool) (g : cfg) (s : sys) (o : op) 
   | OTouch ag vh sh =>
       (set_mem s (touch_first (fun m => (m_agent m =? ag) && (m_vh m =? vh) && (m_sh m =? sh))
                               (s_clock s) (s_mem s)), OutUnit)
-  | OSetClean k => (set_rec s (option_map (fun rc => mkRec k (rc_total rc)) (s_rec s)), OutUnit)
+  | OSetClean k =>
+      (set_rec s (option_map (fun rc => mkRec k (rc_total rc) (rc_updated rc) (rc_tolerated rc)) (s_rec s)), OutUnit)
   | OTrain po => sys_train rnd g s po
   | OTregEval l a =>
       (s, OutSupp (option_map
                      (treg_evaluate (g_rules g) (g_stab g) (mkResp l a S1NonSelf S2None [] false))
                      (s_rec s)))
+  | OMarkUpdated => (set_rec s (option_map rec_mark_updated (s_rec s)), OutUnit)
+  | OTolerate code => (set_rec s (option_map (fun rc => rec_tolerate rc code) (s_rec s)), OutUnit)
+  | OTouchPartial ag types =>
+      (set_mem s (touch_first (sig_matches_partial ag types) (s_clock s) (s_mem s)), OutUnit)
   end.
 
 (* the trace of a history: state before each operation, the operation, its outcome *)
@@ -529,7 +556,9 @@ Definition tables_agree (rt : list response_row) (st : list (Z * Z * bool)) (dt 
 
 Inductive ccond :=
 | CConst (b : bool) | CLevelIs (l : level) | CCleanGe (k : Z) | CActionIs (a : action)
-| CViolGe (k : Z).
+| CViolGe (k : Z)
+| CRecent            (* lambda resp, rec: rec.recent_update *)
+| CTolerated.        (* some violation of the response is in rec.tolerated_violations *)
 
 Definition interp_cond (c : ccond) : response -> trec -> bool :=
   match c with
@@ -538,6 +567,8 @@ Definition interp_cond (c : ccond) : response -> trec -> bool :=
   | CCleanGe k => fun _ rc => k <=? rc_clean rc
   | CActionIs a => fun r _ => action_eqb (r_action r) a
   | CViolGe k => fun r _ => k <=? Z.of_nat (length (r_viol r))
+  | CRecent => fun _ rc => rc_updated rc
+  | CTolerated => fun r rc => existsb (fun v => zmem v (rc_tolerated rc)) (r_viol r)
   end.
 
 Fixpoint zl_eq (a b : list Z) : bool :=
@@ -580,7 +611,7 @@ Definition cfg_of (c : case) : cfg :=
 
 Definition init_of (c : case) : sys :=
   mkSys (option_map (fun x => let '(pr, rep, an) := x in fresh_tcell pr rep an) (c_tcell c))
-        [] (if c_record c then Some (mkRec 0 0) else None) 0 0.
+        [] (if c_record c then Some (mkRec 0 0 false []) else None) 0 0.
 
 Definition disp_of (c : case) : display := mkDisp (fst (c_win c)) (snd (c_win c)) [] [].
 
@@ -606,7 +637,7 @@ Definition outcome_obs (o : outcome) : list Z :=
 
 Definition msig_obs (m : msig) : list Z :=
   [m_agent m; m_vh m; m_sh m; level_code (m_level m); action_code (m_action m); m_created m;
-   if m_accessed m <? imported_base then m_accessed m else -1].
+   if m_accessed m <? imported_base then m_accessed m else -1; Z.of_nat (length (m_types m))] ++ m_types m.
 
 Definition state_obs (s : sys) : list Z :=
   match s_tcell s with
@@ -614,7 +645,10 @@ Definition state_obs (s : sys) : list Z :=
   | Some t => [1; t_anom t; t_anergy t; b2z (t_manual t); sig1_code (t_s1 t); sig2_code (t_s2 t);
                b2z (is_anergic t)]
   end ++
-  match s_rec s with None => [-1; -1] | Some rc => [rc_clean rc; rc_total rc] end ++
+  match s_rec s with
+  | None => [-1; -1; -1; -1]
+  | Some rc => [rc_clean rc; rc_total rc; b2z (rc_updated rc); Z.of_nat (length (rc_tolerated rc))] ++ rc_tolerated rc
+  end ++
   s_clock s :: Z.of_nat (length (s_mem s)) :: flat_map msig_obs (s_mem s).
 
 Definition op_code (o : op) : Z :=
@@ -622,6 +656,7 @@ Definition op_code (o : op) : Z :=
   | OInspect _ => 1 | OFlag _ => 2 | OReset => 3 | OResetNC => 4 | OStore _ => 5
   | OForget _ => 6 | OSetClean _ => 7 | OTrain _ => 8 | OTregEval _ _ => 9
   | OClearMem => 10 | OImport _ => 11 | OPruneOld _ => 12 | OAdvance _ => 13 | OTouch _ _ _ => 14
+  | OMarkUpdated => 15 | OTolerate _ => 16 | OTouchPartial _ _ => 17
   end.
 
 Definition q_obs (q : Q) : list Z := let r := Qred q in [Qnum r; Zpos (Qden r)].
